@@ -307,13 +307,13 @@ def run_large(spec, res):
     plan = []
     for n in small:
         for bname in LARGE_BASES:
-            for law in rng.sample(names, spec['laws_small']):
+            for law in rng.sample(names, min(len(names), spec['laws_small'])):
                 plan.append((n, bname, law))
     cheap = [x for x in names if x.startswith(('slice-compose', 'concat-split', 'map-slice',
                                                'batch', 'tile2', 'indexlist'))]
     for n in huge:
         for bname in ('list.batch(2)', 'dict.batch(4)', 'list', 'list.batch(3)[1:]'):
-            for law in rng.sample(cheap, spec['laws_huge']):
+            for law in rng.sample(cheap, min(len(cheap), spec['laws_huge'])):
                 plan.append((n, bname, law))
     for j, (n, bname, law) in enumerate(plan):
         if j % spec['mod'] != spec['rem']:
